@@ -210,7 +210,7 @@ def flat_tokens(code):
 
 NAMES_DATA = ['a', 'b', 'c', 'x', 'y', 'items', 'd', 'obj', 'f', 's', 'n']
 NAMES_UNDEF = ['nope', 'zz', 'undefined_name']
-NAMES_BUILTIN = ['len', 'abs', 'int', 'str', 'max', 'sorted', 'list', 'range', 'sum', 'bool', 'tuple', 'dict']
+NAMES_BUILTIN = ['len', 'abs', 'int', 'str', 'max', 'sorted', 'list', 'sum', 'bool', 'tuple', 'dict']
 ATTRS = ['a', 'b', 'real', 'k', 'items', 'missing', 'x', 'upper', 'append', 'val']
 
 
